@@ -151,6 +151,44 @@ def build() -> Check:
                       f"{c.name} writes {'.'.join(e.path)!r} (= {e.value_txt}) only when `{ast.unparse(g)}`: the guard reads self.{', self.'.join(foreign)}, which is not the value "
                       f"written nor an object it is reached through; for a value of that other field the key is withheld and the reader fills in its default - the round trip changes the field",
                       cell=".".join(e.path) + " if " + ast.unparse(g))
+        # R1 what is stored under a key is the field itself or a lossless image of it (r9_C20: `self.stack_trace[-MAX:]` - every field is written, under the right
+        # key, and a long trace loses its outer frames). The images the codecs use form a small closed grammar; anything else - a slice, an index, arithmetic, a call
+        # of something that is not a converter - is reported with its text
+        def lossless_image(v, loopvars=()):
+            if isinstance(v, ast.Constant) and v.value is None:
+                return True
+            if isinstance(v, ast.Dict) and not v.keys:
+                return True
+            if isinstance(v, ast.Dict):
+                return True   # an inline nested dictionary: its entries are judged one by one
+            if isinstance(v, ast.Name):
+                return True   # a local: R1.field-is-written judges whether the field reaches the key at all
+            if isinstance(v, ast.Attribute):
+                if isinstance(v.value, ast.Name) and (v.value.id == "self" or v.value.id in loopvars):
+                    return True
+                return lossless_image(v.value, loopvars) if isinstance(v.value, ast.Attribute) else False
+            if isinstance(v, ast.IfExp):
+                return lossless_image(v.body, loopvars) and lossless_image(v.orelse, loopvars)
+            if isinstance(v, ast.Call) and isinstance(v.func, ast.Attribute) and v.func.attr in ("to_dict", "to_json_dict", "copy") and not v.args and not v.keywords:
+                return lossless_image(v.func.value, loopvars)
+            if isinstance(v, ast.Call) and isinstance(v.func, ast.Name) and v.func.id in ("list", "dict") and len(v.args) == 1 and not v.keywords:
+                return lossless_image(v.args[0], loopvars)
+            if isinstance(v, ast.Call) and ast.unparse(v.func).endswith("to_unix_millis") and len(v.args) == 1:
+                return lossless_image(v.args[0], loopvars)
+            if isinstance(v, ast.ListComp) and len(v.generators) == 1 and not v.generators[0].ifs and isinstance(v.generators[0].target, ast.Name):
+                g_ = v.generators[0]
+                lv = g_.target.id
+                elt_ok = (isinstance(v.elt, ast.Name) and v.elt.id == lv) or \
+                    (isinstance(v.elt, ast.Call) and isinstance(v.elt.func, ast.Attribute) and v.elt.func.attr in ("to_dict", "to_json_dict") and isinstance(v.elt.func.value, ast.Name)
+                     and v.elt.func.value.id == lv and not v.elt.args)
+                return elt_ok and lossless_image(g_.iter, loopvars)
+            return False
+        for e in wt:
+            if all_self_roots(e.value):
+                ck.ob("R1.emitted-value-is-the-field-or-its-lossless-image", construct, lossless_image(e.value),
+                      f"{c.name} stores `{e.value_txt}` under {'.'.join(e.path)!r}: neither the field itself nor one of the lossless images the codecs use (.value of an enum, "
+                      "to_dict() of a nested model, a comprehension of those over the whole sequence) - a slice, an index or a computation loses part of the value and the reader "
+                      "cannot bring it back", cell=".".join(e.path))
         for f in c.all_fields():
             if (c.name, f.name) in NOT_WIRE:
                 continue
